@@ -7,6 +7,7 @@ package c19
 import (
 	"fmt"
 	"math"
+	"regexp"
 	"strings"
 	"time"
 
@@ -106,7 +107,7 @@ func eval(cs Case, x *fw.Rec) {
 			continue
 		}
 		for _, e := range cs.Expect {
-			if !strings.Contains(rn.err.Error(), e) {
+			if !regexp.MustCompile("(?i)" + e).MatchString(rn.err.Error()) { // names literally, the kind of conflict by a tolerant pattern
 				x.Fail(fmt.Sprintf("error does not name the conflict via %s: %s", rn.via, kind(cs.Desc)), "", fmt.Sprintf("%s: expected the message to contain %q, got: %s", cs.Desc, e, rn.err.Error()))
 				break
 			}
@@ -216,7 +217,7 @@ func Run(r *fw.Run) {
 			infos = append(infos, wm.InfoANP(a))
 		}
 		infos = append(infos, after...)
-		return Case{Infos: infos, Expect: []string{"pol-00", "pol-01", "same priority"}, Desc: fmt.Sprintf("equal-priority n=%d order=%v surroundings=%s shape=%d", n, p, sn, shape)}
+		return Case{Infos: infos, Expect: []string{"pol-00", "pol-01", "priorit"}, Desc: fmt.Sprintf("equal-priority n=%d order=%v surroundings=%s shape=%d", n, p, sn, shape)}
 	}, eval)
 
 	// (ii) large n: every position pair over base orders
@@ -245,7 +246,7 @@ func Run(r *fw.Run) {
 			infos = append(infos, wm.InfoANP(anp(fmt.Sprintf("pol-%02d", pos), prio)))
 		}
 		infos = append(infos, after...)
-		return Case{Infos: infos, Expect: []string{fmt.Sprintf("pol-%02d", i), fmt.Sprintf("pol-%02d", j), "same priority"}, Desc: fmt.Sprintf("equal-priority n=%d base=%s i=%d j=%d surroundings=%s", n, names[b], i, j, sn)}
+		return Case{Infos: infos, Expect: []string{fmt.Sprintf("pol-%02d", i), fmt.Sprintf("pol-%02d", j), "priorit"}, Desc: fmt.Sprintf("equal-priority n=%d base=%s i=%d j=%d surroundings=%s", n, names[b], i, j, sn)}
 	}, eval)
 
 	// (iii) priority out of range at every position
@@ -279,9 +280,9 @@ func Run(r *fw.Run) {
 			infos = append(infos, inf)
 		}
 		infos = append(infos, after...)
-		expect := []string{fmt.Sprintf("pol-%02d", j), fmt.Sprint(bad), "Priority"}
+		expect := []string{fmt.Sprintf("pol-%02d", j), fmt.Sprint(bad), "priorit"}
 		if int(int32(bad)) != bad {
-			expect = []string{fmt.Sprintf("pol-%02d", j), "Priority"} // the policy and the kind of conflict are named; the number cannot be represented
+			expect = []string{fmt.Sprintf("pol-%02d", j), "priorit"} // the policy and the kind of conflict are named; the number cannot be represented
 		}
 		return Case{Infos: infos, Expect: expect, Desc: fmt.Sprintf("priority-range n=%d base=%s position=%d value=%d surroundings=%s ruleless=%v", n, names[b], j, bad, sn, ruleless)}
 	}, eval)
@@ -350,17 +351,17 @@ func Run(r *fw.Run) {
 		}
 	}
 	dups := []dup{
-		{name: "duplicate-anp-name", a: func() *resource.Info { return wm.InfoANP(anp("dup", 1)) }, b: func() *resource.Info { return wm.InfoANP(anp("dup", 2)) }, expect: []string{"dup", "AdminNetworkPolicy"}},
-		{name: "duplicate-netpol-name", a: npA("ns1", "dupnp", 80), b: npA("ns1", "dupnp", 81), expect: []string{"dupnp", "NetworkPolicy"}, noAdmin: true},
-		{name: "duplicate-netpol-name-default-ns", a: npA("", "dupnp", 80), b: npA("default", "dupnp", 81), expect: []string{"dupnp", "NetworkPolicy"}, noAdmin: true},
-		{name: "duplicate-netpol-name-same-uid", a: npU("ns1", "dupnp", 80, "uid-1"), b: npU("ns1", "dupnp", 81, "uid-1"), expect: []string{"dupnp", "NetworkPolicy"}, noAdmin: true},
-		{name: "duplicate-netpol-name-different-uid", a: npU("ns1", "dupnp", 80, "uid-1"), b: npU("ns1", "dupnp", 81, "uid-2"), expect: []string{"dupnp", "NetworkPolicy"}, noAdmin: true},
+		{name: "duplicate-anp-name", a: func() *resource.Info { return wm.InfoANP(anp("dup", 1)) }, b: func() *resource.Info { return wm.InfoANP(anp("dup", 2)) }, expect: []string{"dup", `admin.?network.?polic|\banps?\b`}},
+		{name: "duplicate-netpol-name", a: npA("ns1", "dupnp", 80), b: npA("ns1", "dupnp", 81), expect: []string{"dupnp", `network.?polic|netpol`}, noAdmin: true},
+		{name: "duplicate-netpol-name-default-ns", a: npA("", "dupnp", 80), b: npA("default", "dupnp", 81), expect: []string{"dupnp", `network.?polic|netpol`}, noAdmin: true},
+		{name: "duplicate-netpol-name-same-uid", a: npU("ns1", "dupnp", 80, "uid-1"), b: npU("ns1", "dupnp", 81, "uid-1"), expect: []string{"dupnp", `network.?polic|netpol`}, noAdmin: true},
+		{name: "duplicate-netpol-name-different-uid", a: npU("ns1", "dupnp", 80, "uid-1"), b: npU("ns1", "dupnp", 81, "uid-2"), expect: []string{"dupnp", `network.?polic|netpol`}, noAdmin: true},
 		{name: "control-same-netpol-name-other-namespace", a: npA("ns1", "dupnp", 80), b: npA("ns2", "dupnp", 81), expect: nil, noAdmin: true},
-		{name: "duplicate-anp-name-without-rules", a: func() *resource.Info { return wm.InfoANP(bare(anp("dup", 1))) }, b: func() *resource.Info { return wm.InfoANP(bare(anp("dup", 2))) }, expect: []string{"dup", "AdminNetworkPolicy"}},
-		{name: "duplicate-anp-name-one-without-rules", a: func() *resource.Info { return wm.InfoANP(anp("dup", 1)) }, b: func() *resource.Info { return wm.InfoANP(bare(anp("dup", 2))) }, expect: []string{"dup", "AdminNetworkPolicy"}},
-		{name: "two-banps-one-without-rules", a: func() *resource.Info { return wm.InfoBANP(banp(), "default") }, b: func() *resource.Info { return wm.InfoBANP(bare(banp()), "default") }, expect: []string{"baseline admin network policy"}},
+		{name: "duplicate-anp-name-without-rules", a: func() *resource.Info { return wm.InfoANP(bare(anp("dup", 1))) }, b: func() *resource.Info { return wm.InfoANP(bare(anp("dup", 2))) }, expect: []string{"dup", `admin.?network.?polic|\banps?\b`}},
+		{name: "duplicate-anp-name-one-without-rules", a: func() *resource.Info { return wm.InfoANP(anp("dup", 1)) }, b: func() *resource.Info { return wm.InfoANP(bare(anp("dup", 2))) }, expect: []string{"dup", `admin.?network.?polic|\banps?\b`}},
+		{name: "two-banps-one-without-rules", a: func() *resource.Info { return wm.InfoBANP(banp(), "default") }, b: func() *resource.Info { return wm.InfoBANP(bare(banp()), "default") }, expect: []string{`baseline|\bbanps?\b`}},
 		{name: "banp-not-named-default-without-rules", a: func() *resource.Info { return wm.InfoBANP(bare(banp()), "baseline") }, expect: []string{"default"}, single: true},
-		{name: "two-banps", a: func() *resource.Info { return wm.InfoBANP(banp(), "default") }, b: func() *resource.Info { return wm.InfoBANP(banp(), "default") }, expect: []string{"baseline admin network policy"}},
+		{name: "two-banps", a: func() *resource.Info { return wm.InfoBANP(banp(), "default") }, b: func() *resource.Info { return wm.InfoBANP(banp(), "default") }, expect: []string{`baseline|\bbanps?\b`}},
 		{name: "banp-not-named-default", a: func() *resource.Info { return wm.InfoBANP(banp(), "baseline") }, expect: []string{"default"}, single: true},
 	}
 	fw.Explore(r, "duplicates/positions", fw.Full, func(c *fw.Ctx) Case {
@@ -432,7 +433,7 @@ func Run(r *fw.Run) {
 			for _, pv := range variants[vi] {
 				docs = append(docs, wm.InfoPod("ns1", pv.name, "rs1", pv.labels, nil))
 			}
-			expect = []string{"ns1/rs1", "different set of labels"}
+			expect = []string{"rs1", "label"}
 		}
 		for i := 0; i < k; i++ {
 			docs = append(docs, wm.InfoPod("ns1", fmt.Sprintf("other-%d", i), fmt.Sprintf("rs-other-%d", i%2), map[string]string{"app": "o"}, nil))
